@@ -4,7 +4,7 @@ import json, os, re, shutil, subprocess, sys
 
 pid, n, caught_by = sys.argv[1:4]
 result = " ".join(sys.argv[4:])
-src = f"/tmp/wt/out_{pid}/{n}"
+src = f"/tmp/wt/{os.environ.get('OUTP', 'out')}_{pid}/{n}"
 root = os.path.dirname(os.path.dirname(os.path.abspath(__file__)))
 k = int(n)
 while os.path.exists(os.path.join(root, "seeded", f"{pid}-{k}")) and not os.path.exists(os.path.join(root, "seeded", f"{pid}-{k}", ".from_" + n)):
